@@ -691,6 +691,11 @@ class C09(World):
             ctx.fail("model", "edgelist-edges", f"exported {got_edges} != current {want_edges}")
         g2 = SceneGraph(base_frame=graph.base_frame)
         g2.repair_rigid = graph.repair_rigid
+        if len(edges) and len(edges) % 2:
+            # the list is loaded into a graph that already holds these edges with other matrices (an older snapshot): what is loaded counts
+            stale = [(e[0], e[1], dict(e[2], matrix=(np.eye(4) + np.diag([0.0, 0.0, 0.0, 0.0])).tolist() if i % 2 else mx.hom(None, [9.0, -9.0, 9.0]).tolist())) if len(e) > 2 and isinstance(e[2], dict) else e for i, e in enumerate(edges)]
+            g2.from_edgelist(stale, strict=True)
+            ctx.count("probe:edgelist-loaded-over-older-edges")
         g2.from_edgelist(edges, strict=True)
         in_edges = set(model.parent) | set(model.parent.values())
         for a in model.nodes:
